@@ -153,8 +153,8 @@ pub fn property() -> Property {
         rule: "logistic cases = (n 20..120 rows x p 1..4 gaussian features times scale {1,10,100}, labels drawn from a random linear score plus \
                logistic/Gumbel noise, class balance 0.1..0.9 / 2..6 classes, label type bool|usize|String with permuted names, permuted sample order, \
                alpha {0,1e-3,1,10}, intercept on/off, optional initial parameters, gradient tolerance {1e-4,1e-6}, decision threshold); every case is \
-               fitted twice (generated order/naming and canonical order with usize labels). GLM cases = power {0,1,1.2,1.5,1.8,2,3} x link \
-               {identity,log,logit}, targets generated from the model with multiplicative noise, exact zeros for 1<=power<2, planted out-of-support \
+               fitted twice (generated order/naming and canonical order with usize labels). GLM cases = (12..80 rows x 1..4 features) x power {0,1,1.2,1.5,1.8,2,3} x link \
+               {identity,log,logit} x alpha {0,1e-3,1,10} x intercept on/off x tol {1e-4,1e-6}, targets generated from the model with multiplicative noise, exact zeros for 1<=power<2, planted out-of-support \
                targets. Non-trivial = (alpha = 0 and the harness certified overlapping classes) or (String labels whose names are not in class-index \
                order) or (GLM with 1 <= power < 2 that was judged) or an oracle self-test case; distinct = distinct canonical JSON of the case",
         assumptions: vec![
@@ -187,13 +187,36 @@ pub fn property() -> Property {
             "GLM objective 1/2(sum d_p(y,mu) + alpha |w|^2) with textbook unit deviances, intercept unpenalised; identity link with power >= 1 is always fitted with an intercept and a returned point \
              outside the deviance's domain (mean <= 0) is counted, not judged; log/logit links: targets generated inside the link's mean range"
                 .into(),
-            "only f64 is exercised; max_iterations = 2000".into(),
+            format!(
+                "convergence evidence: a fit is first run with max_iterations = {} (logistic) / max_iter = {} (GLM); when its gradient exceeds the bound it is re-run with twice that limit —                  different parameters mean the first run was cut off by the iteration limit (counted 'stopped_by_max_iterations', not judged), bit-identical parameters mean the solver stopped on                  its own and the case is judged",
+                logistic::MAX_ITER,
+                glm::MAX_ITER
+            ),
+            format!(
+                "every linfa-facing case runs in a child process of the check binary; a case that does not finish within {} s (logistic) / {} s (GLM) is killed and reported as failure hang:<sub>                  (ordinary cases take milliseconds, the slowest legitimate ones a few seconds); after the first failure with an unknown signature a worker spends at most {} s on shrinking",
+                isolate::case_timeout_s("binary"),
+                isolate::case_timeout_s("glm"),
+                isolate::SHRINK_BUDGET_S
+            ),
+            format!(
+                "GLM features are halved until the harness' objective is finite at start - t*gradient for t in {{0.5,1,2,5}} and the linear predictor moves by at most {} at t = 1                  (start = linfa's start point: coefficients 0, intercept link(mean y)); without this most fits fail in the first line search. Identity link is drawn for 1 in 8 cases when power >= 1",
+                glm::FIRST_STEP_CAP
+            ),
+            "a multinomial non-stationary result is attributed to the known log_sum_exp defect (own signature) only when the loss recomputed with linfa's global-max shift and 1e-15 clamp differs              from the true loss at the returned point or at the harness-polished minimiser"
+                .into(),
+            "only f64 is exercised".into(),
             format!("oracle self-test: analytic gradient/Hessian of the harness objectives agree with central differences within {:e} relative", FD_TOL),
         ],
         subs: vec![
-            prop_sub("multinomial", 1000, 12000, |t: Tier| logistic::case_strategy(true, t), multinomial_isolated).chunks(16),
-            prop_sub("binary", 2000, 24000, |t: Tier| logistic::case_strategy(false, t), binary_isolated).chunks(16),
-            prop_sub("glm", 2400, 30000, glm::case_strategy, glm_isolated).chunks(16),
+            prop_sub("multinomial", 1000, 12000, |t: Tier| logistic::case_strategy(true, t), multinomial_isolated)
+                .chunks(16)
+                .require(&["alpha0_overlapping", "labels_string", "classes_6", "multi_extreme_scores", "naming_not_in_class_order"]),
+            prop_sub("binary", 2000, 24000, |t: Tier| logistic::case_strategy(false, t), binary_isolated)
+                .chunks(16)
+                .require(&["alpha0_overlapping", "labels_string", "labels_bool", "binary_extreme_scores", "threshold_at_boundary", "imbalanced"]),
+            prop_sub("glm", 2400, 30000, glm::case_strategy, glm_isolated)
+                .chunks(16)
+                .require(&["power_between_1_and_2", "power_1_poisson", "link_logit", "link_identity", "target_outside_support", "zero_targets_in_support"]),
             prop_sub("oracle_selftest", 300, 3000, |_t: Tier| self_strategy(), selftest).chunks(2),
         ],
     }
